@@ -596,10 +596,22 @@ def body_calls_rule(run, quick):
                     parts.append("{{{%s}}}" % rng.choice(FLAT_KEYS) if rng.random() < 0.7 else "{{{%s|%s}}}" % (rng.choice(FLAT_KEYS), rng.choice(FLAT_DEFAULTS)))
                 else:
                     nm = rng.choice(["i", "j", "I", "nosuch"])
-                    parts.append("{{" + "|".join([nm] + [rng.choice(FLAT_ARGS) for _ in range(rng.randint(0, 3))]) + "}}")
+
+                    def carg():
+                        # an argument of a call in the body: text and parameter references (with and without defaults, named)
+                        if rng.random() < 0.45:
+                            return rng.choice(FLAT_ARGS)
+                        pieces = []
+                        for _ in range(rng.randint(1, 3)):
+                            q = rng.random()
+                            pieces.append(rng.choice(["", "x", " ", "k=", "2=", "a b"]) if q < 0.35 else
+                                          ("{{{%s}}}" % rng.choice(FLAT_KEYS) if q < 0.75 else
+                                           "{{{%s|%s}}}" % (rng.choice(FLAT_KEYS), rng.choice(FLAT_DEFAULTS))))
+                        return "".join(pieces)
+                    parts.append("{{" + "|".join([nm] + [carg() for _ in range(rng.randint(0, 3))]) + "}}")
             return "".join(parts)
         libn = [["O", obody(), False]] + [[nm, flatbody(), False] for nm in ("I", "J") if rng.random() < 0.85]
-        page = "{{" + "|".join(["o"] + [rng.choice(FLAT_ARGS) for _ in range(rng.randint(0, 3))]) + "}}"
+        page = "{{" + "|".join(["o"] + [rng.choice(FLAT_ARGS + ["a=b", "1=p=q", "k= u=v "]) for _ in range(rng.randint(0, 3))]) + "}}"
         cases.append({"lib": libn, "page": page, "opts": {}, "title": "Tt"})
     res = lib.run_impl("expandlib", cases, shards=lib.NCPU)
     coq_cases, idx = [], []
@@ -616,20 +628,20 @@ def body_calls_rule(run, quick):
         idx.append(i)
     imports = IMPORTS + ["Model.FlatCall"]
     ty = "list tpl * list enc * str"
-    outside, errs = lib.coq_eval_failing("c04b0", imports, ty, coq_cases, "fun '(l, a, o) => body_calls_call_ok parser_functions l [111] a", chunk=300)
+    outside, errs = lib.coq_eval_failing("c04b0", imports, ty, coq_cases, "fun '(l, a, o) => body_params_call_ok parser_functions l [111] a", chunk=300)
     for e in errs:
         run.correspondence_break("model evaluation failed (calls in bodies)", None, error=e)
     run.extra["body_call_cases_outside_the_fragment"] = len(outside)     # e.g. a body call whose written name carries blanks
-    bad, errs = lib.coq_eval_failing("c04b", imports, ty, coq_cases, "fun '(l, a, o) => str_eqb (codes (body_calls_result l [111] a)) o", chunk=300)
+    bad, errs = lib.coq_eval_failing("c04b", imports, ty, coq_cases, "fun '(l, a, o) => str_eqb (codes (body_params_result l [111] a)) o", chunk=300)
     for e in errs:
         run.correspondence_break("model evaluation failed (body-calls rule)", None, error=e)
     for b in bad:
         if b in outside:
             continue
         c = cases[idx[b]]
-        want = lib.coq_eval_term(imports, "(fun '(l, a, o) => codes (body_calls_result l [111] a)) (%s)" % coq_cases[b])
+        want = lib.coq_eval_term(imports, "(fun '(l, a, o) => codes (body_params_result l [111] a)) (%s)" % coq_cases[b])
         run.property_failure("c04:body-calls-differ-from-the-transclusion-rule",
-                             "expand(%r) with templates %r gave %r; the rule (Model.FlatCall.body_calls_result) gives code points %s"
+                             "expand(%r) with templates %r gave %r; the rule (Model.FlatCall.body_params_result) gives code points %s"
                              % (c["page"], c["lib"], res[idx[b]]["out"], " ".join(want.split())[:300]), c)
     run.extra["body_call_cases_checked_against_the_rule"] = len(coq_cases) - len(outside)
 
